@@ -179,6 +179,9 @@ _WRITTEN = ("forall(h, implies(0 <= h and h < " + _NH + " and requested[h], len(
 _EARLIER = "forall(h, c, implies(0 <= h and h < " + _NH + " and requested[h] and 0 <= c and c < old(len(output_writers[h].written)), output_writers[h].written[c] == old(output_writers[h].written[c])))"
 _HIST = ("implies({guard}, forall(h, L, implies(0 <= h and h < " + _NH + " and requested[h], hist_count(histogram_data[h], L) == old(hist_count(histogram_data[h], L)) + ngol(h, L, {i}))))")
 
+_HIST_UNREQUESTED = ("forall(h, L, implies(0 <= h and h < " + _NH + " and not requested[h] and not (h == 0 and add_untagged), "
+                     "hist_count(histogram_data[h], L) == old(hist_count(histogram_data[h], L))))")
+
 R.contract(
     "run_split#single-pass",
     params={"records": LIST(REC), "input_iterator": IterFn(), "input_reader": Opaque(), "read_counter": LoggedCounter(), "discard_unknown_reads": BOOL,
@@ -190,13 +193,14 @@ R.contract(
         ("earlier-content-kept", _EARLIER),
         ("histogram-counts-the-reads-written-per-output", _HIST.format(i="len(records)", guard="not add_untagged")),
         ("histogram-counts-the-reads-written-per-output-with-add-untagged", _HIST.format(i="len(records)", guard="add_untagged")),
+        ("nothing-counted-for-an-output-that-was-not-requested", _HIST_UNREQUESTED),
     ],
     modifies=["OutWriter.written", "Hist.counts"],
     locals={"read_name": INT, "read_length": INT, "record": INT, "read_haplotype": INT, "writer": REF("OutWriter")},
     loops={
         0: dict(index="ri", modifies=["OutWriter.written", "Hist.counts"], preserves=["output_writers", "histogram_data"],
                 inv=[("written", _WRITTEN.format(i="ri")), ("earlier", _EARLIER), ("histogram", _HIST.format(i="ri", guard="not add_untagged")),
-                     ("histogram-with-add-untagged", _HIST.format(i="ri", guard="add_untagged"))]),
+                     ("histogram-with-add-untagged", _HIST.format(i="ri", guard="add_untagged")), ("histogram-unrequested", _HIST_UNREQUESTED)]),
         1: dict(index="wi", modifies=["OutWriter.written"], preserves=["output_writers", "histogram_data"],
                 inv=[("earlier", _EARLIER),
                      ("copied-so-far", "forall(h, implies(0 <= h and h < " + _NH + " and requested[h], "
